@@ -1,3 +1,4 @@
+import WebrtcVerif.Model.Signaling
 /-
   Model of sdp.go `updateSDPOrigin` (and of its callers' use in peerconnection.go `CreateOffer` /
   `CreateAnswer`) — property C11.
@@ -156,5 +157,67 @@ def runHistory (cells : UInt64 × UInt64) : List Api → Option (List (UInt64 ×
 
 /-- all descriptions generated inside a history, in order -/
 def allFresh (h : List Api) : List (UInt64 × UInt64) := (h.map (·.fresh)).flatten
+
+/-! ### one PeerConnection: CreateOffer / CreateAnswer between SetLocalDescription / SetRemoteDescription calls,
+    including rollback and the (rejected) application of an older description
+
+  The negotiation part (signaling state, pending/current descriptions, lastOffer/lastAnswer, the guards of
+  CreateOffer/CreateAnswer, every row of checkNextSignalingState incl. the rollback rows) is
+  `Model/Signaling.lean`.  What this section adds is the origin: `updateSDPOrigin` is called by CreateOffer
+  (once per iteration of its loop) and by CreateAnswer, after their guards — and by nothing else:
+  `setDescription`, for every type including rollback, leaves `pc.sdpOrigin` untouched. -/
+
+structure PcSt where
+  neg : Signaling.Neg := {}
+  cells : UInt64 × UInt64 := (0, 0)         -- pc.sdpOrigin: (SessionVersion, SessionID)
+  created : List (UInt64 × UInt64) := []    -- origins (id, ver) of the descriptions handed out so far, in order
+  deriving DecidableEq, Repr
+
+inductive PcAct
+  | createOffer (a : Api)                   -- `a`: the descriptions generated inside the call, see `Api`
+  | createAnswer (a : Api)
+  | setLocal (d : Signaling.Desc)           -- any type (offer / pranswer / answer / rollback), any text: the last
+  | setRemote (d : Signaling.Desc)          --   created description, an older one (`Txt.made k 0`), garbage …
+  | close
+  deriving Repr
+
+/-- the origin part of a CreateOffer / CreateAnswer call whose guards passed; `neg'` is the negotiation
+    state if the call returns a description (`pc.lastOffer` / `pc.lastAnswer` updated) -/
+def pcGenerate (s : PcSt) (a : Api) (neg' : Signaling.Neg) : Option PcSt :=
+  match runFresh s.cells a.fresh none with
+  | none => none
+  | some (cells', last) =>
+    match a.returns, last with
+    | true, some o => some { neg := neg', cells := cells', created := s.created ++ [o] }
+    | _, _ => some { s with cells := cells' }
+
+/-- one API call; `none` = the call spins forever in `updateSDPOrigin`'s load loop.  The k-th description
+    handed out has the text `Txt.made k 0`. -/
+def pcStep (s : PcSt) : PcAct → Option PcSt
+  | .createOffer a =>
+    let r := Signaling.createOffer s.neg s.created.length
+    match r.err with
+    | some _ => some s                       -- closed: returns before anything is generated
+    | none => pcGenerate s a r.st
+  | .createAnswer a =>
+    let r := Signaling.createAnswer s.neg s.created.length
+    match r.err with
+    | some _ => some s                       -- no remote description / closed / wrong signaling state
+    | none => pcGenerate s a r.st
+  | .setLocal d => some { s with neg := (Signaling.setLocal s.neg d).st }
+  | .setRemote d => some { s with neg := (Signaling.setRemote s.neg d).st }
+  | .close => some { s with neg := (Signaling.close s.neg).st }
+
+def pcRun (s : PcSt) : List PcAct → Option PcSt
+  | [] => some s
+  | a :: as => (pcStep s a).bind (fun s' => pcRun s' as)
+
+def PcAct.fresh : PcAct → List (UInt64 × UInt64)
+  | .createOffer a => a.fresh
+  | .createAnswer a => a.fresh
+  | _ => []
+
+/-- every description any call of the history may generate -/
+def pcFresh (acts : List PcAct) : List (UInt64 × UInt64) := (acts.map PcAct.fresh).flatten
 
 end WebrtcVerif.Origin
